@@ -35,7 +35,8 @@ def setup():
         return _m
     from sqlalchemy import (Column, Integer, String, ForeignKey, Table, create_engine, event, inspect, select, exc, JSON, text, update,
                             PickleType)
-    from sqlalchemy.orm import (Session, declarative_base, relationship, backref, attributes, object_session, make_transient, exc as orm_exc)
+    from sqlalchemy.orm import (Session, declarative_base, relationship, backref, attributes, object_session, make_transient, exc as orm_exc,
+                                attribute_keyed_dict)
     from sqlalchemy.ext.mutable import MutableDict, MutableList
     from sqlalchemy.pool import QueuePool
     _m.update(locals())
@@ -135,9 +136,24 @@ def _universe(name, cfg):
         note = Column(String)
         rs = relationship("R", cascade="all, delete-orphan")       # unidirectional: no backref
 
+    class O(Base):
+        __tablename__ = "o"
+        id = Column(Integer, primary_key=True)
+        g_id = Column(ForeignKey("g.id"))
+        key = Column(String)
+        val = Column(Integer)
+        g = relationship("G", back_populates="opts")
+
+    class G(Base):
+        __tablename__ = "g"
+        id = Column(Integer, primary_key=True)
+        note = Column(String)
+        # dictionary collection keyed by an attribute of the member
+        opts = relationship("O", back_populates="g", cascade="all, delete-orphan", collection_class=_m["attribute_keyed_dict"]("key"))
+
     from sqlalchemy.orm import configure_mappers
     configure_mappers()
-    classes = {"A": A, "A2": A2, "B": B, "T": T, "Node": Node, "K": K, "P": P, "BL": BL, "D": D, "H": H, "Q": Q, "R": R}
+    classes = {"A": A, "A2": A2, "B": B, "T": T, "Node": Node, "K": K, "P": P, "BL": BL, "D": D, "H": H, "Q": Q, "R": R, "G": G, "O": O}
     # relationship descriptors: (class, attr) -> kind, target, reverse attr, cascade, fk info
     rels = {
         ("A", "bs"): dict(kind="o2m", target="B", rev="a", fk=("b", "a_id")),
@@ -153,6 +169,8 @@ def _universe(name, cfg):
         ("D", "blob"): dict(kind="m2o", target="BL", rev=None, fk=("d", "bl_id")),
         ("H", "doc"): dict(kind="m2o", target="D", rev=None, fk=("h", "d_id")),
         ("Q", "rs"): dict(kind="o2m", target="R", rev=None, fk=("r", "q_id")),
+        ("G", "opts"): dict(kind="o2m", target="O", rev="g", fk=("o", "g_id")),
+        ("O", "g"): dict(kind="m2o", target="G", rev="opts", fk=("o", "g_id")),
     }
     for (cn, an), r in rels.items():
         prop = classes[cn].__mapper__.relationships[an]
@@ -162,11 +180,11 @@ def _universe(name, cfg):
             if c0 == "A":
                 rels[(cn, an)] = r
     scal = {"A": ["name"], "A2": ["name", "extra"], "B": ["val"], "T": ["name"], "Node": ["name"], "K": ["val"], "P": ["note"],
-            "BL": ["note"], "D": ["note"], "H": ["note"], "Q": ["note"], "R": ["note"]}
+            "BL": ["note"], "D": ["note"], "H": ["note"], "Q": ["note"], "R": ["note"], "G": ["note"], "O": ["val"]}
     tables = {"a": ["id", "name", "kind", "data", "items"], "a2": ["id", "extra"], "b": ["id", "a_id", "val"], "t": ["id", "name"],
               "b_t": ["b_id", "t_id"], "node": ["id", "parent_id", "name"], "nf": ["src", "dst"], "k": ["name", "val"],
               "p": ["id", "a_id", "note"], "bl": ["id", "note"], "d": ["id", "bl_id", "note"], "h": ["id", "d_id", "note"],
-              "q": ["id", "note"], "r": ["id", "q_id", "note"]}
+              "q": ["id", "note"], "r": ["id", "q_id", "note"], "g": ["id", "note"], "o": ["id", "g_id", "val", "key"]}
     return dict(name=name, cfg=cfg, Base=Base, classes=classes, rels=rels, scal=scal, tables=tables)
 
 
@@ -177,6 +195,17 @@ def rel_of(U, obj, attr):
 def rel_attrs(U, obj):
     cn = type(obj).__name__
     return [an for (c, an) in U["rels"] if c == cn]
+
+
+def members(v):
+    """the member objects of a loaded relationship value: list / dict collection, scalar reference or None"""
+    if v is None:
+        return []
+    if isinstance(v, dict):
+        return list(v.values())
+    if isinstance(v, (list, set, tuple)):
+        return list(v)
+    return [v]
 
 
 def state_of(obj):
